@@ -39,6 +39,8 @@ func (x *Exec) specFail(f string, a ...any) {
 }
 
 func (x *Exec) specBool(env *SpecEnv, e *SExpr) *Term {
+	x.inSpec++
+	defer func() { x.inSpec-- }()
 	v := x.specEval(env, e)
 	b, ok := v.(BoolV)
 	if !ok {
@@ -584,6 +586,44 @@ func (x *Exec) specCallExpr(env *SpecEnv, e *SExpr) Value {
 			ow := cell.F["comittedValue"].(StructV)
 			opt := ow.F["overwritten"].(StructV)
 			return x.iteVal(opt.F["some"].(BoolV).T, opt.F["value"], ow.F["value"])
+		case "readall", "readlen", "readercontent", "readerlen", "buflen", "bufcontent", "fsinode", "isize", "icontent", "handleinode":
+			return IntV{Select(env.st.ghostArr(name, SInt), x.identityOf(env.st, x.specEval(env, e.Args[0])))}
+		case "fsexists":
+			return BoolV{Ne(Select(env.st.ghostArr("fsinode", SInt), x.identityOf(env.st, x.specEval(env, e.Args[0]))), IntLit(0))}
+		case "fssize":
+			return IntV{Select(env.st.ghostArr("isize", SInt), Select(env.st.ghostArr("fsinode", SInt), x.identityOf(env.st, x.specEval(env, e.Args[0]))))}
+		case "fscontent":
+			return IntV{Select(env.st.ghostArr("icontent", SInt), Select(env.st.ghostArr("fsinode", SInt), x.identityOf(env.st, x.specEval(env, e.Args[0]))))}
+		case "handlecontent":
+			return IntV{Select(env.st.ghostArr("icontent", SInt), Select(env.st.ghostArr("handleinode", SInt), x.identityOf(env.st, x.specEval(env, e.Args[0]))))}
+		case "handlesize":
+			return IntV{Select(env.st.ghostArr("isize", SInt), Select(env.st.ghostArr("handleinode", SInt), x.identityOf(env.st, x.specEval(env, e.Args[0]))))}
+		case "pathjoin":
+			return IntV{App("pathjoin", SInt, x.identityOf(env.st, x.specEval(env, e.Args[0])), x.identityOf(env.st, x.specEval(env, e.Args[1])))}
+		case "asptr":
+			// asptr(v, "T"): view an interface / pointer value as *T of the contract's package
+			v := x.specEval(env, e.Args[0])
+			tn, ok := strLitOf(x.specEval(env, e.Args[1]).(StrV))
+			if !ok {
+				x.specFail("asptr needs a literal type name")
+			}
+			pkg := x.L.pkgOf(env.pkgPath)
+			if pkg == nil {
+				x.specFail("asptr: package")
+			}
+			obj := pkg.Types.Scope().Lookup(tn)
+			if obj == nil {
+				x.specFail("asptr: unknown type %s", tn)
+			}
+			t := x.resolveType(obj.Type())
+			return PtrV{Addr: x.asTermAny(v), Prefix: typeKey(t), Elem: t}
+		case "jexp":
+			// jexp(k): expiry of the entry the backend currently holds for key k; ghost, forgotten when a shard lock is acquired
+			kk := x.keyTerm(env.st, x.specEval(env, e.Args[0]))
+			return IntV{Select(env.st.ghostArr("jexp", SInt), kk)}
+		case "mapsum":
+			m := x.specEval(env, e.Args[0]).(MapV)
+			return IntV{Select(env.st.ghostArr("mapsum", SInt), m.ID)}
 		case "aload":
 			// aload(a): current content of an atomics.Value[X] (field v *atomic.Value)
 			av, ok := x.specEval(env, e.Args[0]).(StructV)
@@ -839,12 +879,19 @@ func (x *Exec) localEnv(fr *Frame, st *State, n ast.Node) *SpecEnv {
 		env.old = fr.top.Entry
 		env.oldVars = fr.top.Params
 	}
-	scope := fr.pkg.Types.Scope().Innermost(n.Pos())
+	pos := n.Pos()
+	switch l := n.(type) {
+	case *ast.ForStmt:
+		pos = l.Body.Lbrace + 1 // loop variables of the init statement are in scope here
+	case *ast.RangeStmt:
+		pos = l.Body.Lbrace + 1
+	}
+	scope := fr.pkg.Types.Scope().Innermost(pos)
 	env.lookup = func(name string) (Value, bool) {
 		if scope == nil {
 			return nil, false
 		}
-		_, obj := scope.LookupParent(name, n.Pos())
+		_, obj := scope.LookupParent(name, pos)
 		v, ok := obj.(*types.Var)
 		if !ok {
 			return nil, false
@@ -1007,3 +1054,4 @@ func (x *Exec) specRecursive(sf *SpecFunc) bool {
 	x.recMemo[sf.Name] = r
 	return r
 }
+
